@@ -13,6 +13,7 @@
 #include <kernel/geometry/partition_set.hpp>
 #include <kernel/util/property_map.hpp>
 
+#include <algorithm>
 #include <cstdio>
 #include <fstream>
 #include <sstream>
@@ -224,6 +225,97 @@ namespace c11
     catch(const std::exception& e) { out.kind = K_STD_OTHER; out.what = std::string(typeid(e).name()) + ": " + e.what(); }
     catch(...) { out.kind = K_UNKNOWN; out.what = "non-std exception"; }
     return out;
+  }
+
+
+  // ---------------------------------------------------------------------------------------------- sequences of files
+  /// runs f and classifies the way it terminated
+  template<typename F_>
+  inline Kind classify(F_&& f, std::string& what)
+  {
+    try { f(); return K_OK; }
+    catch(const Xml::SyntaxError& e) { what = e.what(); return K_SYNTAX; }
+    catch(const Xml::GrammarError& e) { what = e.what(); return K_GRAMMAR; }
+    catch(const Xml::ContentError& e) { what = e.what(); return K_CONTENT; }
+    catch(const MeshNodeLinkerError& e) { what = e.what(); return K_LINKER; }
+    catch(const FEAT::FileError& e) { what = e.what(); return K_FILE; }
+    catch(const FEAT::ParseError& e) { what = e.what(); return K_FILE; }
+    catch(const FEAT::SyntaxError& e) { what = e.what(); return K_FILE; }
+    catch(const FEAT::Exception& e) { what = std::string(typeid(e).name()) + ": " + e.what(); return K_FEAT_OTHER; }
+    catch(const std::bad_alloc& e) { what = e.what(); return K_RESOURCE; }
+    catch(const std::length_error& e) { what = e.what(); return K_RESOURCE; }
+    catch(const std::exception& e) { what = std::string(typeid(e).name()) + ": " + e.what(); return K_STD_OTHER; }
+    catch(...) { what = "non-std exception"; return K_UNKNOWN; }
+  }
+
+  struct SeqResult
+  {
+    std::vector<Kind> kinds;            // one per step
+    std::vector<std::string> whats;
+    std::vector<std::string> canons;    // structural dump of the (shared) node/atlas/partition set after each step
+    std::string written;                // MeshFileWriter output after the last step
+  };
+
+  /// one_reader: all texts are streams of ONE MeshFileReader (one step); otherwise one reader per text, all parsing
+  /// into the same node / atlas / partition set (one step per text)
+  template<typename Mesh_>
+  void parse_sequence_typed(const std::vector<std::string>& texts, bool one_reader, bool with_partitions, SeqResult& out)
+  {
+    MeshAtlas<Mesh_> atlas;
+    RootMeshNode<Mesh_> node(nullptr, &atlas);
+    PartitionSet ps;
+    auto after = [&]()
+    {
+      out.canons.push_back(canon(node, atlas, ps));
+    };
+    if(one_reader)
+    {
+      std::string what;
+      std::vector<std::unique_ptr<std::istringstream>> streams;
+      Kind k = classify([&]{
+        MeshFileReader reader;
+        for(auto& t : texts) { streams.emplace_back(new std::istringstream(t)); reader.add_stream(*streams.back()); }
+        reader.parse(node, atlas, with_partitions ? &ps : nullptr);
+      }, what);
+      out.kinds.push_back(k); out.whats.push_back(what); after();
+    }
+    else
+    {
+      for(auto& t : texts)
+      {
+        std::string what;
+        Kind k = classify([&]{
+          std::istringstream iss(t);
+          MeshFileReader reader(iss);
+          reader.parse(node, atlas, with_partitions ? &ps : nullptr);
+        }, what);
+        out.kinds.push_back(k); out.whats.push_back(what); after();
+      }
+    }
+    std::ostringstream os;
+    { MeshFileWriter w(os); w.write(&node, &atlas, &ps); }
+    out.written = os.str();
+  }
+
+  inline bool parse_sequence(const std::string& type, const std::vector<std::string>& texts, bool one_reader, bool with_partitions, SeqResult& out)
+  {
+    if(type == "conformal:hypercube:1:1") parse_sequence_typed<MeshH1>(texts, one_reader, with_partitions, out);
+    else if(type == "conformal:hypercube:2:2") parse_sequence_typed<MeshH2>(texts, one_reader, with_partitions, out);
+    else if(type == "conformal:hypercube:3:3") parse_sequence_typed<MeshH3>(texts, one_reader, with_partitions, out);
+    else if(type == "conformal:simplex:2:2") parse_sequence_typed<MeshS2>(texts, one_reader, with_partitions, out);
+    else if(type == "conformal:simplex:3:3") parse_sequence_typed<MeshS3>(texts, one_reader, with_partitions, out);
+    else return false;
+    return true;
+  }
+
+  /// canon with its partition lines sorted (partitions are kept in order of arrival; everything else is keyed by name)
+  inline std::string sorted_lines(const std::string& s)
+  {
+    std::vector<std::string> part; std::string rest; std::istringstream is(s); std::string l;
+    while(std::getline(is, l)) { if(l.compare(0, 11, "partition '") == 0) part.push_back(l); else { rest += l; rest += '\n'; } }
+    std::sort(part.begin(), part.end());
+    for(auto& x : part) { rest += x; rest += '\n'; }
+    return rest;
   }
 
   // ---------------------------------------------------------------------------------------------- property map
